@@ -17,7 +17,9 @@ import (
 func algorithmHasher(i ipmi.IntegrityAlgorithm, g AdditionalKeyMaterialGenerator) (hash.Hash, error) {
 	switch i {
 	case ipmi.IntegrityAlgorithmNone:
-		return nil, nil
+		// sessions always send packets flagged as authenticated, which a nil
+		// hash leaves without an AuthCode
+		return nil, fmt.Errorf("sessions without integrity are not supported")
 	case ipmi.IntegrityAlgorithmHMACSHA196:
 		return &truncatedHash{
 			Hash:   hmac.New(sha1.New, g.K(1)),
